@@ -63,6 +63,8 @@ SPECS["C01"] = dict(
     jobs=[
         rapid("TestC01Core", 1200, 30000, sq=4, st=16),
         rapid("TestC01Session", 400, 12000, sq=6, st=16),
+        rapid("TestC01FreeRun", 120, 4000, sq=3, st=12),
+        dict(rapid("TestC01FreeRun", 60, 1500, sq=1, st=6), label="TestC01FreeRun-race", race=True, tiers=(T,)),
     ],
 )
 
